@@ -311,7 +311,72 @@ func ruleM3(c *Ctx, id string) {
 		return ok && cl.Call.StaticCallee() == maxfs
 	}
 	// guard: "X > MaxFileSize()" false edge / "X <= MaxFileSize()" true edge where X involves val
-	guardOn := func(fn *ssa.Function, at *ssa.BasicBlock, related func(ssa.Value) bool) bool {
+	var guardOn func(fn *ssa.Function, at *ssa.BasicBlock, related func(ssa.Value) bool) bool
+	guardOn = func(fn *ssa.Function, at *ssa.BasicBlock, related func(ssa.Value) bool) bool {
+		// the comparison made by a private predicate helper ("does it fit?") whose answer is tested here
+		for _, br := range branches(fn) {
+			if br.Cond.Op != token.ILLEGAL {
+				continue
+			}
+			hc, ok := br.Cond.X.(*ssa.Call)
+			if !ok {
+				continue
+			}
+			h := hc.Call.StaticCallee()
+			if h == nil || !isPrivateHelper(h) || h.Blocks == nil || h == fn {
+				continue
+			}
+			for _, cls := range []struct {
+				want bool
+				succ *ssa.BasicBlock
+			}{{true, br.True}, {false, br.False}} {
+				if !edgeDominates(br.Block, cls.succ, at) {
+					continue
+				}
+				// every return of h that can give this answer is guarded inside h, on an expression over
+				// parameters whose arguments here cover what the stored value depends on
+				relH := func(v ssa.Value) bool {
+					for x := range bwdArith(stripConv(v)) {
+						if pm, isP := x.(*ssa.Parameter); isP {
+							for i, q := range h.Params {
+								if q == pm && i < len(hc.Call.Args) && related(hc.Call.Args[i]) {
+									return true
+								}
+							}
+						}
+					}
+					// or jointly: the sum of the arguments
+					var sum []ssa.Value
+					for x := range bwdArith(stripConv(v)) {
+						if pm, isP := x.(*ssa.Parameter); isP {
+							for i, q := range h.Params {
+								if q == pm && i < len(hc.Call.Args) {
+									sum = append(sum, hc.Call.Args[i])
+								}
+							}
+						}
+					}
+					return relatedAll(related, sum)
+				}
+				all, n := true, 0
+				for _, hb := range h.Blocks {
+					r, isR := hb.Instrs[len(hb.Instrs)-1].(*ssa.Return)
+					if !isR || len(r.Results) != 1 {
+						continue
+					}
+					if bv, isb := constBool(r.Results[0]); isb && bv != cls.want {
+						continue
+					}
+					n++
+					if !guardOn(h, hb, relH) {
+						all = false
+					}
+				}
+				if all && n > 0 {
+					return true
+				}
+			}
+		}
 		return guardedBy(fn, at, func(cd Cond) (bool, bool) {
 			if cd.X == nil || cd.Y == nil {
 				return false, false
@@ -415,4 +480,17 @@ func ruleM3(c *Ctx, id string) {
 			R.Check(okCallers, id, key, P.Pos(w.Instr.Pos()), "the new size is compared with MaxFileSize() in the function or in every caller", "every caller guards the size it passes", "the size is stored without a bound (unguarded caller "+why+"): SETATTR can set a size the server cannot read back (bmap beyond the double-indirect range panics)")
 		}
 	}
+}
+
+
+// relatedAll: the values vs together cover what related demands (related is a
+// predicate on one expression: offer it each value; a set covers when some
+// value does - the coarse version used for predicate helpers).
+func relatedAll(related func(ssa.Value) bool, vs []ssa.Value) bool {
+	for _, v := range vs {
+		if related(v) {
+			return true
+		}
+	}
+	return false
 }
